@@ -55,7 +55,7 @@ ASSUMPTIONS = [
     "logging is disabled by the harness; messages are still formatted (docstring_warning runs)",
 ]
 BUDGET_S = {"quick": 45.0, "thorough": 780.0}
-SHRINK_MAX_EXAMPLES = 4000
+SHRINK_MAX_EXAMPLES = 2000
 
 PARSE_CPU_S = 0.25
 ALONE_FACTOR = 100
@@ -317,7 +317,7 @@ def _norm_blank(text: str) -> str:
 def _prose_fail(doc, result, style, opts, facts) -> tuple[str, str] | None:
     if opts.get("ignore_init_summary") and facts["is_init"]:
         return None
-    first = doc.value.split("\n", 1)[0]
+    first = doc.value.lstrip().split("\n", 1)[0]  # the option looks at the first non-blank line (`value.lstrip()`)
     if opts.get("returns_type_in_property_summary") and facts["is_property"] and ":" in first:
         return None
     if not doc.value.strip() and result == []:
@@ -465,10 +465,17 @@ def run_shard(ctx) -> None:
     fuzz_here = (not ctx.quick) and ctx.shard == 0
     if fuzz_here:
         n = n * 3 // 10  # shard 0 of the thorough tier spends the rest of its time in the Atheris target
-    ctx.run_hypothesis(strat, check_case, n, describe=_describe(ctx), salt=salt)
+    # four chunks (own salts) so that a run that is out of budget stops generating instead of drawing thousands of unused examples
+    import time
+
+    chunks = 4
+    for k in range(chunks):
+        if ctx.out_of_budget() or (fuzz_here and time.monotonic() - ctx.t0 > 0.35 * ctx.budget_s):
+            break
+        ctx.run_hypothesis(strat, check_case, max(1, n // chunks), describe=_describe(ctx), salt=salt if k == 0 else f"{salt}{k}")
     ctx.res.extra["inconclusive_timeouts"] = ctx.res.extra.get("inconclusive_timeouts", 0) + STATS["inconclusive_timeouts"]
     ctx.res.extra["alone_replays"] = ctx.res.extra.get("alone_replays", 0) + STATS["alone_replays"]
     if fuzz_here:
         from vp.fuzz import c12_atheris
 
-        c12_atheris.run(ctx, check_case)
+        c12_atheris.run(ctx, check_case, seconds=max(60.0, ctx.budget_s - (time.monotonic() - ctx.t0)))
